@@ -76,8 +76,17 @@ def check_omega(ctx, case):
     ctx.check(got == want, "omega-sequence", "get_Omega_sequence()=%r, expected %r" % (got, want), case)
     # kappa == kappa_X(ED, KR)
     raw = case.get("raw", seq)
-    k = util.spw(raw, case).get_kappa()
+    ok_ = util.spw(raw, case)
+    k = ok_.get_kappa()
     _r, kedge = ref_kappa(ref.pattern(seq))
+    if case.get("child"):
+        # a shuffled copy (made after its parent answered get_kappa) is a sequence like any other: the same identities hold on it
+        ch = util.shuffled_child(ok_, case["child"])
+        cs = ch.get_sequence()
+        _r2, cedge = ref_kappa(ref.pattern(cs))
+        ck = ch.get_kappa()
+        eq_kappa(ctx, case, ck, ch.get_kappa_X(["E", "D"], ["K", "R"]), "child:kappa=kappaX(ED,KR)", "get_kappa() vs get_kappa_X(ED,KR) on the shuffled copy %s of %s" % (cs, seq), cedge)
+        eq_kappa(ctx, case, ck, util.sp(cs).get_kappa(), "child:kappa=fresh", "get_kappa() of the shuffled copy %s of %s vs a fresh object of that sequence" % (cs, seq), cedge)
     eq_kappa(ctx, case, k, util.sp(raw).get_kappa_X(["E", "D"], ["K", "R"]), "kappa=kappaX(ED,KR)", "get_kappa() vs get_kappa_X(ED,KR) for input %r" % raw, kedge)
     if "raw" in case:
         eq_kappa(ctx, case, util.sp(raw).get_Omega(), om, "omega-raw", "get_Omega() of the pasted form %r vs of the clean word" % raw, edge)
@@ -171,7 +180,11 @@ def hyp_case(draw, max_len):
     seq = draw(gens.sequences(max_len=max_len))
     kind = draw(st.sampled_from(["omega", "groups", "groups", "groups", "invalid", "history"]))
     if kind == "omega":
-        case = {"kind": kind, "seq": seq, "warm": draw(gens.warmups(3)) if len(seq) <= 40 else []}
+        if draw(st.integers(0, 5)) == 0:
+            # an arrangement whose own delta exceeds the documented delta-max of its composition (kappa in or beyond the clamp band)
+            from .c15 import beating_patterns
+            seq = draw(gens.spelled(ref.pat_from_str(draw(st.sampled_from(beating_patterns())))))
+        case = {"kind": kind, "seq": seq, "warm": draw(gens.warmups(3)) if len(seq) <= 40 else [], "child": draw(gens.child_opt())}
         if draw(st.integers(0, 2)) == 0:
             style = draw(st.sampled_from(["blocks", "wrapped", "padded", "lower"]))
             case["raw"] = {"blocks": " ".join(seq[i:i + 10] for i in range(0, len(seq), 10)), "wrapped": "\n".join(seq[i:i + 20] for i in range(0, len(seq), 20)) + "\n",
